@@ -9,7 +9,17 @@ from core import cn, cq, cb, clist, copt
 CASE_HEADER = ("From Coq Require Import List ZArith QArith.\nFrom EV Require Import KcGuardBase KcGuardGen KcArgs Cluster ClusterCase.\n"
                "Import ListNotations.\n")
 MODEL_TARGETS = ["Model/Cluster.vo", "Model/ClusterCase.vo", "Model/KcArgs.vo"]
-GEN_FILES = ["Gen/KcGuardGen.v"]
+GEN_FILES = ["Gen/KcGuardGen.v", "Gen/ClusterGen.v"]
+
+
+def translate_all(repo):
+    import os, sys
+    from core import VERIF
+    sys.path.insert(0, os.path.join(VERIF, "translator"))
+    import tr_kcguard, tr_cluster
+    d = dict(tr_kcguard.translate(repo))
+    d.update(tr_cluster.translate(repo))
+    return d
 TRUSTED = ["modelled not verified: NumPy argmax/boolean-mask assignment/np.unique, the metric kernels themselves "
            "(the model receives the implementation's own distance matrix as exact rationals, C13 covers the kernels)",
            "k-medoids proposals are recorded from the implementation's RandomState and replayed in the model"]
